@@ -1,5 +1,7 @@
 package gen
 
+import "verifsim/core"
+
 // Signature table for image-type sniffing (C09), written from the formats' published magic
 // numbers (JFIF/Exif SOI+marker, PNG 1.2 §3.1, GIF89a, BMP, RIFF/WebP container, TIFF 6.0 §2,
 // Canon CR2/CRW/CR3 notes, Panasonic RW2 as in file(1)'s magic, Adobe PSD, XMP sidecar root
@@ -171,4 +173,113 @@ func Canonical(f string) [][]byte {
 		return [][]byte{pad("\x00\x00\x00\x18ftypheic\x00\x00\x00\x00mif1heic"), pad("\x00\x00\x00\x18ftypheix\x00\x00\x00\x00mif1heix"), pad("\x00\x00\x00\x18ftypmif1\x00\x00\x00\x00mif1heic")}
 	}
 	return nil
+}
+
+// SigPart is one contiguous piece of a format's signature: bytes S at offset Off.
+type SigPart struct {
+	Off int
+	S   string
+}
+
+// SigFamily groups formats whose signatures are variations of one scheme (a byte-order mark and a
+// magic number; a box header and brands), so that pieces of one are the natural near misses of
+// another.
+var SigFamilies = [][]string{
+	{FTIFF, FCR2, FCRW, FRW2},
+	{FCR3, FAVIF, FHEIF},
+	{FGIF}, {FPPM}, {FJPEG}, {FPNG}, {FBMP}, {FWebP}, {FPSD}, {FXMP},
+}
+
+// SigParts lists the signature pieces per format (several alternatives of one piece are listed
+// one after the other), from the same published magic numbers as Carries.
+var SigParts = map[string][]SigPart{
+	FJPEG: {{0, "\xff\xd8"}, {0, "\x00\x00\x00\x0cjP  \r\n\x87\n"}},
+	FPNG:  {{0, "\x89PNG\r\n\x1a\n"}},
+	FGIF:  {{0, "GIF87a"}, {0, "GIF89a"}},
+	FBMP:  {{0, "BM"}},
+	FWebP: {{0, "RIFF"}, {8, "WEBP"}},
+	FTIFF: {{0, "II*\x00"}, {0, "MM\x00*"}},
+	FCR2:  {{0, "II*\x00"}, {0, "MM\x00*"}, {8, "CR\x02\x00"}},
+	FCRW:  {{0, "II"}, {6, "HEAPCCDR"}},
+	FRW2:  {{0, "IIU\x00"}, {8, "\x88\xe7\x74\xd8"}},
+	FPSD:  {{0, "8BPS"}},
+	FXMP:  {{0, "<x:xmpmeta"}},
+	FPPM:  {{0, "P3"}, {0, "P6"}},
+	FCR3:  {{4, "ftyp"}, {8, "crx "}},
+	FAVIF: {{4, "ftyp"}, {8, "avif"}, {8, "mif1"}, {16, "avif"}, {20, "avif"}},
+	FHEIF: {{4, "ftyp"}, {8, "heic"}, {8, "heix"}, {8, "mif1"}, {8, "msf1"}, {16, "heic"}, {20, "heic"}, {16, "hevc"}, {20, "hevc"}},
+}
+
+func reverse(s string) string {
+	b := []byte(s)
+	for i, j := 0, len(b)-1; i < j; i, j = i+1, j-1 {
+		b[i], b[j] = b[j], b[i]
+	}
+	return string(b)
+}
+
+// Recombine draws a near miss: a canonical header in which some two-byte units of its signature
+// are replaced by the same unit written the other way round (a magic number in the other byte
+// order), by the unit a related format has at that offset, or by the unit of any format. Headers
+// of this kind differ from every canonical header in several bytes at once, which single-byte
+// perturbations do not reach.
+func Recombine(l *core.Lane) (h []byte, desc string) {
+	f := AllFormats[l.Intn(len(AllFormats))]
+	cs := Canonical(f)
+	h = append([]byte(nil), cs[l.Intn(len(cs))]...)
+	var family []string
+	for _, fam := range SigFamilies {
+		for _, x := range fam {
+			if x == f {
+				family = fam
+			}
+		}
+	}
+	// the two-byte units the base's own signature covers
+	seen := map[int]bool{}
+	var units []int
+	for _, p := range SigParts[f] {
+		if p.Off+len(p.S) > 24 || string(h[p.Off:p.Off+len(p.S)]) != p.S {
+			continue
+		}
+		for o := p.Off; o+2 <= p.Off+len(p.S); o += 2 {
+			if !seen[o] {
+				seen[o] = true
+				units = append(units, o)
+			}
+		}
+	}
+	// alternatives for the unit at offset o drawn from the parts of the given formats
+	alts := func(o int, formats []string) []string {
+		var out []string
+		for _, x := range formats {
+			for _, p := range SigParts[x] {
+				if o >= p.Off && o+2 <= p.Off+len(p.S) && (o-p.Off)%2 == 0 {
+					u := p.S[o-p.Off : o-p.Off+2]
+					out = append(out, u, reverse(u))
+				}
+			}
+		}
+		return out
+	}
+	desc = "recombined " + f
+	for _, o := range units {
+		if !l.Bool() {
+			continue
+		}
+		var a []string
+		switch l.Intn(3) {
+		case 0:
+			a = []string{reverse(string(h[o : o+2]))}
+		case 1:
+			a = alts(o, family)
+		default:
+			a = alts(o, AllFormats)
+		}
+		if len(a) == 0 {
+			continue
+		}
+		copy(h[o:], a[l.Intn(len(a))])
+	}
+	return h, desc
 }
